@@ -234,6 +234,19 @@ def r09_3(prog: Program, rep: Report):
                     args_ok = True
                 if a[0] == "key" and b[0] == "value" and a[1] == b[1] and hints_src(a[1]):
                     hints_ok = True
+    # not a generator at all: `return [*((None, a) for a in args(t)), *hints.items()]`
+    for _, r in P.returns(fps):
+        if r[0] in ("list", "tuple"):
+            for part in r[1]:
+                if part[0] != "star":
+                    continue
+                x = part[1]
+                if x[0] == "comp" and not x[4] and len(x[3]) == 1:
+                    it = x[3][0][0]
+                    if T.is_call_to(it, f"{C.INSP}.args") and it[2] == (t,) and x[2] == ("tuple", (("const", None), ("elem", it))):
+                        args_ok = True
+                if x[0] == "call" and x[1][0] == "attr" and x[1][2] == "items" and hints_src(x[1][1]):
+                    hints_ok = True
     for y in ys:
         if y[0] == "elem" and y[1][0] == "comp":
             c = y[1]
